@@ -109,13 +109,15 @@ FAMILIES = {
         rule='stop() / run-loop-task cancellation at every control state of the run loop (polling, event in hand, processing, handler mid-flight, '
              'blocked on the lock), backlog sizes 0-6, other buses with awaiting handlers; non-trivial: the stop or cancel arrives while the bus has work'),
     'C17': dict(
-        gens=[('core', dict(p_wal=0.7, p_payload=0.6, p_walfault=0.15, p_forward=0.25, p_parallel=0.3), 0.8),
+        gens=[('core', dict(p_wal=0.7, p_payload=0.6, p_walfault=0.15, p_forward=0.25, p_parallel=0.3), 0.74), ('parraise', dict(wal=True), 0.06),
               ('core', dict(p_wal=0.8, p_payload=0.4, p_rtype=0.7, p_forward=0.2), 0.2)],
         facets=['wal', 'activation', 'handlers', 'lifecycle', 'harness', 'other', 'results', 'signal'],
         rule='WAL buses with nested, awaited and forwarded events, parallel handlers, payloads (nested containers, unicode, datetimes, big ints), '
              'I/O faults on open/write; non-trivial: at least two WAL lines and one other activation'),
     'C18': dict(
-        gens=[('core', dict(p_expect=0.3, ntasks=(1, 3), tasklen=(2, 7)), 1.0)],
+        gens=[('core', dict(p_expect=0.3, ntasks=(1, 3), tasklen=(2, 7)), 0.8),
+              # ... while ordinary handlers of the events fail: time out, raise, let a CancelledError escape
+              ('core', dict(p_expect=0.3, ntasks=(1, 3), tasklen=(2, 7), p_timeout=0.5, p_raise=0.2, proglen=(1, 5)), 0.2)],
         facets=['expect', 'registry', 'handlers', 'lifecycle', 'activation', 'harness', 'other', 'timeout', 'results'],
         rule='event streams x include/exclude/raising predicates x timeouts x 1-3 concurrent expect() calls; non-trivial: an expect() is pending while an event of its type is processed'),
     # not a property: scenario family used by tools/mine_witness.py for the parallel-bus findings
